@@ -14,6 +14,7 @@ import (
 	"os"
 	"runtime"
 	"sync"
+	"sync/atomic"
 	"time"
 
 	"github.com/gammazero/nexus/v3/client"
@@ -78,6 +79,82 @@ func main() {
 			sum.Disagreements = append(sum.Disagreements, hcommon.Disagreement{Input: in, Impl: got, Model: want, SpecViolation: true, Detail: detail})
 		}
 	}
+	// Directed: Call's progress handler is busy with a progressive result when the caller's context
+	// is cancelled. Call returns the context's error, but not before the handler has returned
+	// ("never after Call has returned"). No timing assumption: the handler says when it has started,
+	// and whether it had finished is read after Call came back.
+	for _, useCallProgressive := range []bool{false, true} {
+		in := map[string]any{"directed": "cancel-while-progress-handler-busy", "CallProgressive": useCallProgressive}
+		proc := fmt.Sprintf("prog.%v", useCallProgressive)
+		err := callee.Register(proc, func(ctx context.Context, _ *wamp.Invocation) client.InvokeResult {
+			if callee.SendProgress(ctx, wamp.List{"p1"}, nil) != nil {
+				return client.InvokeResult{Err: "verif.failed"}
+			}
+			<-ctx.Done()
+			return client.InvocationCanceled
+		}, nil)
+		if err != nil {
+			bad(in, err.Error(), "REGISTERED", "register failed")
+			continue
+		}
+		started := make(chan struct{}, 1)
+		var finished atomic.Bool
+		progcb := func(*wamp.Result) {
+			select {
+			case started <- struct{}{}:
+			default:
+			}
+			time.Sleep(300 * time.Millisecond)
+			finished.Store(true)
+		}
+		ctx, cancel := context.WithCancel(context.Background())
+		ret := make(chan error, 1)
+		go func() {
+			var err error
+			if useCallProgressive {
+				sent := false
+				_, err = shared.CallProgressive(ctx, proc, func(context.Context) (wamp.Dict, wamp.List, wamp.Dict, error) {
+					if sent {
+						<-ctx.Done()
+						return nil, nil, nil, ctx.Err()
+					}
+					sent = true
+					return wamp.Dict{wamp.OptProgress: true}, wamp.List{1}, nil, nil
+				}, progcb)
+			} else {
+				_, err = shared.Call(ctx, proc, nil, nil, nil, progcb)
+			}
+			if !finished.Load() {
+				select {
+				case <-started:
+					bad(in, fmt.Sprint("returned ", err, " while the progress handler was still running"), "returns after the progress handler",
+						"Call returned while its progress handler was still busy with a progressive result: the handler runs after Call has returned")
+				default: // the handler was never invoked: nothing to wait for
+				}
+			}
+			ret <- err
+		}()
+		select {
+		case <-started:
+			started <- struct{}{}
+		case <-time.After(30 * time.Second):
+			bad(in, "no progressive result delivered", "progress handler invoked", "the progress handler was never invoked")
+		}
+		cancel()
+		select {
+		case err := <-ret:
+			if err != context.Canceled {
+				bad(in, fmt.Sprint(err), "context.Canceled", "a cancelled Call did not return the context's error")
+			}
+		case <-time.After(60 * time.Second):
+			bad(in, "still waiting", "returns", "a cancelled Call did not return")
+		}
+		mu.Lock()
+		sum.Evaluations++
+		sum.TracesValidated++
+		mu.Unlock()
+	}
+
 	var wg sync.WaitGroup
 	for w := 0; w < *workers; w++ {
 		wg.Add(1)
